@@ -699,7 +699,7 @@ def run_cases(ck, hb, db, cases, label, batch=60, hist=8, text=True):
         md = c.parse_model(mline)
         ck.cov["evaluations"] += sum(1 for m in MODES if m in res)
         sig = hashlib.sha1(("%s|%s" % (c.op.split(" ", 2)[2], key[1])).encode()).hexdigest()
-        if md.get("error"):
+        if md.get("error") and len(ck.violations) < 10:
             ck.report_failure(label, [c.op, "V " + vals_line(v)], ["(n/a)"], [md["error"]], [])
         if sig not in seen:
             seen.add(sig)
@@ -787,7 +787,7 @@ def run_cases(ck, hb, db, cases, label, batch=60, hist=8, text=True):
                     x = r_.get("ref")
                 if isinstance(x, list) and len(x) == 1:
                     got.append(x[0][1])
-            if len(got) == len(c.values) and sorted(got) != list(range(n)):
+            if len(got) == len(c.values) and sorted(got) != list(range(n)) and len(ck.violations) < 10:
                 ck.report_failure(label, [c.op], ["%s: indices %s" % (m, sorted(got))], ["a bijection onto [0, %d)" % n],
                                   ["%s: in-range index tuples of @dim%s are not mapped one-to-one onto [0, %d): %s" % (m, tuple(D), n, sorted(got))])
         C["bijection_cases"] = C.get("bijection_cases", 0) + 1
